@@ -43,7 +43,11 @@ func (u *UseCase) Set(ctx context.Context, key string, content io.Reader) error 
 			closer.Close()
 		}
 	}()
-	for dir, ok := range dirs.Iterate(u.randGen) {
+	u.randM.Lock()
+	shuffled := dirs.Iterate(u.randGen)
+	u.randM.Unlock()
+
+	for dir, ok := range shuffled {
 		if !ok {
 			return fs_db.ErrNoFreeSpace
 		}
